@@ -429,3 +429,13 @@ def sample_pairs(rows, model_out, seed, k=50):
     idx = list(range(len(rows)))
     random.Random(seed).shuffle(idx)
     return [(rows[i][0], model_out[i]) for i in idx[:k * 3]][:k * 3]
+
+
+def eval_families():
+    """Families with an extraction file coq/extract/Extract<Fam>.v."""
+    out = []
+    for fn in sorted(os.listdir(os.path.join(COQ, "extract"))):
+        m = re.match(r"Extract([A-Za-z0-9]+)\.v$", fn)
+        if m:
+            out.append(m.group(1))
+    return out
